@@ -301,7 +301,7 @@ example :
 
 /-- five simultaneous first contacts of one address, all looked up before any bucket exists: they
 share one bucket — burst 2 admits two.  Two calls holding a bucket that the clean-up pass then drops
-are refused (repaired by 3af3f3b), the next call starts a fresh bucket. -/
+are refused (repaired by 8cd7943), the next call starts a fresh bucket. -/
 example :
     xRun ⟨20, 2, 210⟩ 1000 [(1, .lookup 1), (1, .lookup 1), (1, .lookup 1), (1, .lookup 1), (1, .lookup 1),
         (1, .create 1 0), (1, .create 1 1), (1, .take 1 0), (1, .take 1 0), (1, .create 1 0), (1, .take 1 0),
